@@ -61,7 +61,8 @@ def run(rep, tier, seed, replay):
     # the defective variants of the design must be refuted by the model (else the model is vacuous)
     refuted = [rt.cached_model_refutation("codegen-pipeline-nested-hash", "MCCodegenPipeline", "MCCodegenPipelineHash.cfg", tier, "OutputIsFunctionOfInput"),
                rt.cached_model_refutation("codegen-pipeline-file-hash", "MCCodegenPipeline", "MCCodegenPipelineFileHash.cfg", tier, "OutputIsFunctionOfInput"),
-               rt.cached_model_refutation("codegen-pipeline-item-hash", "MCCodegenPipeline", "MCCodegenPipelineItemHash.cfg", tier, "OutputIsFunctionOfInput")]
+               rt.cached_model_refutation("codegen-pipeline-item-hash", "MCCodegenPipeline", "MCCodegenPipelineItemHash.cfg", tier, "OutputIsFunctionOfInput"),
+               rt.cached_model_refutation("codegen-pipeline-worker-names", "MCCodegenPipeline", "MCCodegenPipelineWorkerNames.cfg", tier, "SplitOutputIsFunctionOfInput")]
     # corpus: generated schemas, the repository's golden IDLs, and a .proto with several sibling nested messages / enums
     d = os.path.join(c.OUT, "corpus", f"c17-{tier}-{seed}")
     os.makedirs(d, exist_ok=True)
